@@ -580,7 +580,85 @@ def r_iface(p):
     return result(res, ins, b)
 
 
-RECIPES = {'joinlow': r_joinlow, 'symprod': r_symprod, 'iface': r_iface, 'amap': r_amap, 'intsum': r_intsum, 'chain': r_chain, 'tkeys': r_tkeys, 'idxmut': r_idxmut, 'tgrad': r_tgrad, 'tvec': r_tvec, 'form': r_form, 'logical': r_logical, 'symbolic': r_symbolic,
+def r_mpatch(p):
+    """a multi-patch domain built DIRECTLY with Domain(name, interiors=[...], boundaries=[...]) from n-cube patches of
+    different bounds (and, possibly, undefined InteriorDomains) supplied in a given order.  Ground truth = the recipe's
+    own table name -> (type, bounds): entry k of Domain.dtype / todict()['dtype'] must describe patch k of
+    Domain.interior, whatever order sympde puts the patches in, and export / from_file must give every patch its bounds"""
+    import tempfile
+    from sympde.topology import Domain, Line, Square, Cube, InteriorDomain, Boundary
+    from sympde.topology.basic import Union
+    cells = p['cells']
+    table, objs = {}, {}
+    for name, bounds in cells:
+        if bounds is None:                       # an undefined interior: no dtype
+            table[name] = None
+            objs[name] = InteriorDomain(name, dim=p['pdim'])
+            continue
+        dim = len(bounds)
+        kw = {'bounds': tuple(bounds[0])} if dim == 1 else {'bounds%d' % (i + 1): tuple(b) for i, b in enumerate(bounds)}
+        objs[name] = {1: Line, 2: Square, 3: Cube}[dim](name, **kw)
+        table[name] = {'type': {1: 'Line', 2: 'Square', 3: 'Cube'}[dim],
+                       'parameters': {k: [float(x) for x in v] for k, v in kw.items()}}
+    order = list(p.get('order', range(len(cells))))
+    names = [cells[i][0] for i in order]
+    interiors, boundaries = [], []
+    for n in names:
+        O = objs[n]
+        if table[n] is None:
+            interiors.append(O)
+            boundaries.append(Boundary('G_' + n, O))
+            continue
+        interiors.append(O.interior)
+        faces = list(O.boundary.args) if isinstance(O.boundary, Union) else [O.boundary]
+        keep = p.get('faces')                    # None = all faces, else indices (mod the number of faces)
+        boundaries += faces if keep is None else [faces[k % len(faces)] for k in sorted({k % len(faces) for k in keep})]
+    if p.get('brev'):
+        boundaries.reverse()
+    ins = [('o_' + n, objs[n]) for n in sorted(objs)] + [('interiors', interiors), ('boundaries', boundaries)]
+    b = snap(ins)
+    D = Domain(p['name'], interiors=interiors, boundaries=boundaries)
+    I = D.interior
+    got = [str(i.name) for i in (I.args if isinstance(I, Union) else [I])]
+    bad = []
+    if sorted(got) != sorted(names):
+        bad.append('the patches of the domain are %s, supplied were %s' % (got, names))
+    dt = D.dtype if len(got) > 1 else [D.dtype]
+    want = [table.get(n) for n in got]
+    if list(dt) != want:
+        bad.append('patches supplied as %s: Domain.interior = %s but Domain.dtype = %s (entry k must describe patch k: %s)'
+                   % (names, got, json.dumps(dt), json.dumps(want)))
+    y = D.todict()
+    yi = y['interior'] if isinstance(y['interior'], list) else [y['interior']]
+    yd = y['dtype'] if isinstance(y['dtype'], list) else [y['dtype']]
+    ywant = [table.get(i['name']) for i in yi]
+    if [None if d == 'None' else d for d in yd] != ywant:
+        bad.append('patches supplied as %s: todict() lists the patches %s with dtype %s (expected %s)'
+                   % (names, [i['name'] for i in yi], json.dumps(yd), json.dumps(ywant)))
+    back = None
+    if len(got) > 1 and len(boundaries) > 1 and all(table[n] is not None for n in names):
+        tmp = tempfile.mkdtemp()
+        fn = os.path.join(tmp, 'D.h5')
+        try:
+            D.export(fn)
+            R = Domain.from_file(fn)
+            RI = R.interior
+            back = sorted((str(i.name), [list(map(float, i.min_coords)), list(map(float, i.max_coords))])
+                          for i in (RI.args if isinstance(RI, Union) else [RI]))
+        finally:
+            if os.path.exists(fn):
+                os.remove(fn)
+            os.rmdir(tmp)
+        bwant = sorted((n, [[float(lo) for lo, _ in bs], [float(hi) for _, hi in bs]]) for n, bs in cells)
+        if back != bwant:
+            bad.append('patches supplied as %s: export + from_file gives the patches (name, min, max) %s, built were %s' % (names, back, bwant))
+    res = [got, json.dumps(dt, sort_keys=True), json.dumps(y, sort_keys=True), str(D.boundary), str(D.dim), json.dumps(back)]
+    r = result(res, ins, b)
+    r['bad'] = [x if len(x) < 700 else x[:700] + ' ...' for x in bad]
+    return r
+
+
+RECIPES = {'mpatch': r_mpatch, 'joinlow': r_joinlow, 'symprod': r_symprod, 'iface': r_iface, 'amap': r_amap, 'intsum': r_intsum, 'chain': r_chain, 'tkeys': r_tkeys, 'idxmut': r_idxmut, 'tgrad': r_tgrad, 'tvec': r_tvec, 'form': r_form, 'logical': r_logical, 'symbolic': r_symbolic,
            'idxder': r_idxder, 'hodge': r_hodge, 'union': r_union, 'join': r_join, 'comm': r_comm,
            'equation': r_equation, 'mapped': r_mapped}
 
